@@ -292,7 +292,8 @@ def run_cases(binary, cases, nproc=None, timeout_s=900):
     without an answer is reported as a crash (with "exited": True) and the rest is run in a new process."""
     import concurrent.futures as cf
     nproc = nproc or NCPU
-    parts = [c for c in chunks(list(cases), nproc) if c]
+    cases = list(cases)
+    parts = [cases[i:i + 200] for i in range(0, len(cases), 200)]     # small batches: the time limit is per driver process
     results = {}
 
     def work(part):
@@ -591,7 +592,7 @@ def run(prop, tier):
                        "why": why[1], "static_class": f["class"]})
 
     byroute, wall, anomalies = {}, {}, {}
-    again = []
+    again, ngroups_again, skipped_groups = [], 0, 0
     for gi, members in enumerate(rmeta):
         ci = ndirect + gi
         res = judge(members, outs[ci])
@@ -604,15 +605,20 @@ def run(prop, tier):
                 f, l, why, obs = res[0]
                 report(f, l, why, obs, outs[ci], cases[ci]["src"])
             else:
-                again += [(gi, [m]) for m in members]     # attribute precisely: one program per function
                 for f, l, why, obs in res:
                     if why:
                         k = "%s/%s/%s" % (why[0], l["route"], "probes" if f["kind"] == "probe" else "lib")
                         anomalies[k] = anomalies.get(k, 0) + 1
                         if len(anomalies) <= 3 and anomalies[k] == 1:
                             log("[gate] anomaly in a shared program, to be confirmed per function: %s %s: %s" % (k, f["name"], why[1][:300]))
+                if ngroups_again >= 100:
+                    skipped_groups += 1                       # the verdict does not need more than 100 attributed programs
+                else:
+                    ngroups_again += 1
+                    again += [(gi, [m]) for m in members]     # attribute precisely: one program per function
     cov["route_programs_rerun_per_function"] = len(again)
     cov["shared_program_anomalies"] = anomalies
+    cov["anomalous_shared_programs_not_rerun"] = skipped_groups
     if again:
         cases2 = [mkcase(m, i) for i, (gi, m) in enumerate(again)]
         outs2 = run_cases(drv, cases2, nproc=max(2, NCPU // 2))
